@@ -66,6 +66,14 @@ def run(ctx, res):
     cr = R.corr(ctx.pid, "raire_rnd", R.IMPORTS, "raire_case", rnd, R.case_lit, "agree_c15", shard=40, show="show_c15")
     res.corr.append(("max difficulty of compute_raire_assertions output vs verified optimum opt (RaireCheck.v), random profiles",
                      cr, R.case_json))
+    # a few LARGE profiles (10 000 - 30 000 ballots, few ballot types, one- or two-vote margins)
+    with R.untraced():
+        big = [] if rp else [R.large_case(rng) for _ in range(ctx.n(8, 60))]
+    R.run_cases(big, rng)
+    cases = cases + big
+    cr = R.corr(ctx.pid, "raire_big", R.IMPORTS, "raire_case", big, R.case_lit, "agree_c15", shard=1, show="show_c15")
+    res.corr.append(("max difficulty of compute_raire_assertions output vs verified optimum opt (RaireCheck.v), large profiles",
+                     cr, R.case_json))
     # the search itself, output for output, against the fuelled model RaireAlgo.raire (exact difficulties)
     ac = R.algo_cases(rnd, rng)      # (the exhaustive small profiles go through the same comparison in C04)
     cr = R.corr(ctx.pid, "algo", R.IMPORTS, "raire_case * list cand", ac, R.algo_lit, "agree_algo", shard=250, show="show_algo")
